@@ -17,7 +17,8 @@ EXTENDS CombTerms, Json, IOUtils
 CONSTANTS Mode,          \* "svc" | "fac" : enumerate terms;  "file": terms read from IOEnv.TERMS (ndjson)
           Depth, RootOps, RK, RR, CK, CR, FK, FR, Kinds, Reqs, Cfgs, Emit,
           AndThenCallsBOnErr, AndThenReadyShortCircuit, MapAppliedToErr, MapErrAppliedTwice,
-          FactoryBuildsTwice, FirstInitErrorSwallowed, RepollAfterComplete
+          FactoryBuildsTwice, FirstInitErrorSwallowed, RepollAfterComplete,
+          AndThenFactorySequential   \* TRUE: fut_b is polled only after fut_a completed (ready!(fut_a.poll(cx))?)
 
 VARIABLES T, req, cfg, phase, svc, rp, ifut, fut, log, wid, act
 vars == <<T, req, cfg, phase, svc, rp, ifut, fut, log, wid, act>>
@@ -179,6 +180,7 @@ PollInitOp(g, r0, w) ==
              g1 == [g EXCEPT !.fa = pa.ifut, !.a = (IF pollA /\ pa.res.k = "ok" THEN pa.svc ELSE g.a),
                              !.ea = (IF aErr THEN pa.res.v ELSE g.ea)] IN
            IF aErr /\ ~FirstInitErrorSwallowed THEN IRes(g1, pa.res, NoSvc, pa.acc, pa.rp)
+           ELSE IF AndThenFactorySequential /\ pollA /\ pa.res.k = "pending" THEN IRes(g1, Pending, NoSvc, pa.acc, pa.rp)
            ELSE
              LET pollB == g1.b.o = "none"
                  pb == IF pollB THEN PollInitOp(g1.fb, pa.rp, w) ELSE IRes(g1.fb, Pending, g1.b, <<>>, pa.rp)
@@ -325,15 +327,22 @@ C11_FactoryBuildsEachOnceWithCfg(t, rq, c, lg) ==
       /\ \A p \in pairs, q \in pairs : p[1] = q[1] => p = q
       /\ (InitOk(lg) => pairs = Creates(t, c))
 
-\* the factory fails in the very round in which an inner init future (or the readiness wait of
-\* apply_cfg_factory) first fails, with that error mapped by the map_init_err's above it;
-\* it reports an error only then
+\* "fail with the first init error":
+\*  (1) by the reference timing InitRef (and_then drives both inner factories together): the factory fails iff the
+\*      reference composition fails, and with the error of the EARLIEST failing round (same-round ties: any of them) -
+\*      also when the implementation never polled the future that fails first;
+\*  (2) an init error that an inner future (or the readiness wait of apply_cfg_factory) was SEEN to return is
+\*      reported in that very round (mapped by the map_init_err's above it), and an error is reported only then
 C11_FirstInitErrorWins(t, rq, c, lg) ==
   IsFactory(t) =>
-    \A i \in 1..Len(lg) : lg[i].ph = "init" =>
-      LET errs == {e \in Seq2Set(lg[i].acc) : e.e \in {"pi", "pr"} /\ e.r = "err"} IN
-        /\ (errs # {}) <=> (lg[i].res.k = "err")
-        /\ (lg[i].res.k = "err" => \E e \in errs : [id |-> e.id, e |-> lg[i].res.v] \in InitErrs(t, c))
+    /\ \A i \in 1..Len(lg) : (lg[i].ph = "init" /\ lg[i].res.k # "pending") =>
+         LET ref == InitRef(t, c, 1) IN
+           IF ref.k = "err" THEN lg[i].res.k = "err" /\ lg[i].res.v \in ref.errs
+           ELSE lg[i].res.k = "ok"
+    /\ \A i \in 1..Len(lg) : lg[i].ph = "init" =>
+         LET errs == {e \in Seq2Set(lg[i].acc) : e.e \in {"pi", "pr"} /\ e.r = "err"} IN
+           /\ (errs # {}) <=> (lg[i].res.k = "err")
+           /\ (lg[i].res.k = "err" => \E e \in errs : [id |-> e.id, e |-> lg[i].res.v] \in InitErrs(t, c))
 
 (* ---------------------------------------- C12 ---------------------------------------- *)
 ReadyRounds(lg) == {i \in 1..Len(lg) : lg[i].ph = "ready"}
